@@ -15,7 +15,7 @@ type User implements Node { id: ID! name: String created: DateTime }
 type Bot implements Node { id: ID! model: String }
 union Actor = User | Bot
 input Filter { name: String limit: Int }
-type Query { me: User users(f: Filter): [User!] actor: Actor stamp: DateTime pair: User }
+type Query { me: User users(f: Filter): [User!] actor: Actor stamp: DateTime pair: User find(query: String, variables: Int): User }
 """
 QUERIES = """
 fragment UserBits on User { id name }
@@ -27,6 +27,7 @@ query GetTwo { me { id } pair { name } }
 fragment Inner on Query { stamp }
 fragment Outer on Query { me { id } ...Inner }
 query Nested { ...Outer }
+query Find($query: String, $variables: Int) { find(query: $query, variables: $variables) { id } }
 fragment OnlyMe on Query { me { id } }
 query ViaFragment { ...OnlyMe }
 """
@@ -38,6 +39,7 @@ RESPONSES = {
     "GetTwo": {"me": {"id": "1"}, "pair": {"name": "p"}},
     "Nested": {"me": {"id": "1"}, "stamp": "2020-01-01T00:00:00"},
     "ViaFragment": {"me": {"id": "7"}},
+    "Find": {"find": {"id": "9"}},
 }
 PLUGINS = {
     "ShorterResults": "ariadne_codegen.contrib.shorter_results.ShorterResultsPlugin",
@@ -45,7 +47,7 @@ PLUGINS = {
     "ClientForwardRefs": "ariadne_codegen.contrib.client_forward_refs.ClientForwardRefsPlugin",
     "NoReimports": "ariadne_codegen.contrib.no_reimports.NoReimportsPlugin",
 }
-SINGLE_FIELD = {"GetMe": "me", "GetUsers": "users", "GetActor": "actor", "GetStamp": "stamp", "ViaFragment": "me"}
+SINGLE_FIELD = {"GetMe": "me", "GetUsers": "users", "GetActor": "actor", "GetStamp": "stamp", "ViaFragment": "me", "Find": "find"}
 
 
 def _plain(v):
@@ -82,7 +84,8 @@ def drive(g):
     inputs = g.module("input_types")
     out = {}
     calls = {"GetMe": ("get_me", {}), "GetUsers": ("get_users", {"f": inputs.Filter(name="a")}), "GetActor": ("get_actor", {}),
-             "GetStamp": ("get_stamp", {}), "GetTwo": ("get_two", {}), "Nested": ("nested", {}), "ViaFragment": ("via_fragment", {})}
+             "GetStamp": ("get_stamp", {}), "GetTwo": ("get_two", {}), "Nested": ("nested", {}), "ViaFragment": ("via_fragment", {}),
+             "Find": ("find", {"query": "needle", "variables": 3})}
     for op, (meth, kw) in calls.items():
         res = asyncio.run(getattr(client, meth)(**kw))
         out[op] = (_norm_request(sent[-1]), _plain(res))
